@@ -1,8 +1,11 @@
 import ConcVerif.Model.LR
 /-! Inductive invariant of the left-right protocol model (`Model/LR.lean`), part 1: the control invariant `Inv`
 (registration lists = reader pcs, mutex holder = writer pcs past the lock, and the *phase promise* of the holder:
-which sides the registered readers can be holding).  Structure as in the design spike: one frame lemma per
-role (`inv_reader`, `inv_writer`, `inv_lock`, `inv_unlock`), then `inv_step` by one `split` per model edge. -/
+which sides the registered readers can be holding).  The promise while waiting (`PK.wait l zL zR`) is phrased over the
+`zeroSeen` flags — a reader registered in a counter that has been observed at zero since the flip holds the new side —
+so the proof does not depend on the order in which the counters are inspected, nor on `m_countingLeft` at all.
+Structure as in the design spike: one frame lemma per role (`inv_reader`, `inv_writer`, `inv_lock`, `inv_unlock`),
+then `inv_step` by one `split` per model edge. -/
 namespace ConcVerif.LR
 
 /-- the counter a reader pc is registered in -/
